@@ -276,6 +276,38 @@ def run(ctx):
         t = Np(b["perm"])
         ctx.ob("R-BIND", pc, "Choi-branch interleave perm == [0,2,4,1,3,5]", t == ("list",) + tuple(("c", k) for k in (0, 2, 4, 1, 3, 5)),
                "inputs (0,2,4) are grouped before outputs (1,3,5)" if t == ("list",) + tuple(("c", k) for k in (0, 2, 4, 1, 3, 5)) else f"perm {show(t)}", c)
+    # Choi branch: the dims handed to permute_systems are [before, before, in, out, after, after] for rows and columns
+    Npi = Normalizer(m, pc, inline=True)
+    for c, cal in calls_from(m, pc, "permute_systems.permute_systems"):
+        b = m.bind(c, cal.func)
+        from ..rules import last_def_at
+        d = b.get("dim")
+        t = Npi(d) if isinstance(d, ast.AST) else None
+        if t is not None and t[0] == "n":
+            t = last_def_at(m, pc, t[1], c, Normalizer(m, pc, inline=False))
+            if t is not None:
+                t = _inline_names(m, pc, t)
+        rows = None
+        if t is not None and t[0] == "call" and t[1] == "numpy.array" and t[2] and t[2][0][0] == "list" and len(t[2][0]) == 3:
+            rows = t[2][0][1:]
+        if rows and all(r[0] == "list" and len(r) == 7 for r in rows):
+            ok = True
+            why = ""
+            for k, r in enumerate(rows):
+                a, bq = _strip(r[3]), _strip(r[4])
+                a_in = mentions_name(a, "dim") and mentions_name(a, "sys") and not mentions_name(a, "dim_phi") and not mentions_name(a, "phi_map")
+                b_out = (mentions_name(bq, "dim_phi") or mentions_name(bq, "phi_map")) and bq[0] in ("/", "//") 
+                if not (a_in and b_out):
+                    ok = False
+                    why = f"row {k}: positions 2,3 are ({show(a)[:40]}, {show(bq)[:40]})"
+                if not (r[1] == r[2] and r[5] == r[6]):
+                    ok = False
+                    why = f"row {k}: the surrounding extents are not doubled"
+            ctx.ob("R-BIND", pc, "Choi-branch dims table == [before, before, in, out, after, after]", ok,
+                   "the map's own (in, out) factors sit at positions 2, 3 of both rows" if ok else
+                   f"{why}: the input extent (local dim of the target subsystem) must precede the output extent (Choi size / input extent)", c)
+        else:
+            ctx.ob("R-BIND", pc, "Choi-branch dims table == [before, before, in, out, after, after]", None, "dims table not recognised", c, required=False)
     p = pc.param("sys")
     ctx.ob("R-BASE", pc, "default sys == 2", isinstance(p.default, ast.Constant) and p.default.value == 2, "second subsystem by default")
     r_live(ctx, pc, "sys")
@@ -335,6 +367,23 @@ def run(ctx):
     for f in m.functions.values():
         if calls_from(m, f, "channel_dim.channel_dim") and f is not ck:
             _channel_dim_roles(ctx, f)
+
+
+def _inline_names(m, f, t):
+    """inline single-assignment locals inside a (non-inlined) term"""
+    Ni = Normalizer(m, f, inline=True)
+
+    def rec(x):
+        if isinstance(x, tuple):
+            if len(x) == 2 and x[0] == "n" and x[1] in Ni.env.single:
+                return Ni(Ni.env.single[x[1]])
+            y = tuple(rec(z) if isinstance(z, tuple) else z for z in x)
+            # subscript of a literal display by a constant: the element
+            if y and y[0] == "sub" and y[1][0] in ("list", "tuple") and y[2][0] == "c" and isinstance(y[2][1], int) and 0 <= y[2][1] < len(y[1]) - 1:
+                return y[1][1 + y[2][1]]
+            return y
+        return x
+    return rec(t)
 
 
 def _returns(m, f, inline=True):
